@@ -3,9 +3,11 @@ package main
 import (
 	"fmt"
 	"go/ast"
+	"go/constant"
 	"go/types"
 	"math/big"
 	"strings"
+	"time"
 )
 
 // assumed contracts of functions outside the module (each use is recorded in the notes => evidence)
@@ -100,6 +102,102 @@ func (e *Engine) callExternal(fn *types.Func, recv Value, args []Value, cx *ast.
 		}
 		st.mem[key] = mkArith("+", n, mkInt(1))
 		return VTuple{VTerm{T: e.fresh("sqlres", SRef), Typ: fn.Type().(*types.Signature).Results().At(0).Type()}, VTerm{T: e.fresh("err", SRef), Typ: fn.Type().(*types.Signature).Results().At(1).Type()}}
+	case "database/sql.Stmt.Query", "database/sql.Stmt.QueryRow":
+		// assumed external: a prepared statement run with given arguments yields a result set sqlrs(stmt, args...):
+		// sql_nrows(rs) rows whose column i of row k is sql_col_<sort>(rs, k, i); the cursor starts before the first row
+		e.notes["assumed external: database/sql (*Stmt).Query/QueryRow yield the result set sql_rs(stmt, args...) of a conforming driver; Rows.Next advances a cursor over its sql_nrows rows; Scan copies the columns of the current row into its destinations when it returns nil"] = true
+		rsArgs := []*Term{recv.(VTerm).T}
+		name := "sql_rs"
+		for _, a := range e.lastAnyArgs {
+			t, ok := a.(VTerm)
+			if !ok {
+				unsup("sql query argument %T at %s", a, e.src(cx))
+			}
+			rsArgs = append(rsArgs, t.T)
+			name += "_" + sortTag(t.T.Sort)
+		}
+		rs := mkApp(name, SRef, rsArgs...)
+		st.assume(mkCmp(">=", mkApp("sql_nrows", SInt, rs), mkInt(0)))
+		sig := fn.Type().(*types.Signature)
+		rows := e.fresh("sqlrows", SRef)
+		st.assume(mkNot(mkEq(rows, mkConst("nil", SRef))))
+		e.localRefs[rows.String()] = true
+		st.mem["sqlrs:"+rows.String()] = rs
+		st.mem["sqlcur:"+rows.String()] = mkInt(0)
+		rk := "sql_Stmt_Query"
+		if full == "database/sql.Stmt.QueryRow" {
+			rk = "sql_Stmt_QueryRow"
+			v := VTerm{T: rows, Typ: sig.Results().At(0).Type()}
+			e.callRes[rk] = append(e.callRes[rk], v)
+			return v
+		}
+		v := VTuple{VTerm{T: rows, Typ: sig.Results().At(0).Type()}, VTerm{T: e.fresh("err", SRef), Typ: sig.Results().At(1).Type()}}
+		e.callRes[rk] = append(e.callRes[rk], v)
+		return v
+	case "database/sql.Rows.Next":
+		rt := recv.(VTerm).T
+		rs := st.getMem("sqlrs:"+rt.String(), mkApp("sql_rs0", SRef, rt))
+		cur := st.getMem("sqlcur:"+rt.String(), mkApp("sql_cur0", SInt, rt))
+		more := mkCmp("<", cur, mkApp("sql_nrows", SInt, rs))
+		st.mem["sqlcur:"+rt.String()] = mkIte(more, mkArith("+", cur, mkInt(1)), cur)
+		return VTerm{T: more, Typ: types.Typ[types.Bool]}
+	case "database/sql.Rows.Scan", "database/sql.Row.Scan":
+		rt := recv.(VTerm).T
+		rs := st.getMem("sqlrs:"+rt.String(), mkApp("sql_rs0", SRef, rt))
+		row := mkArith("-", st.getMem("sqlcur:"+rt.String(), mkApp("sql_cur0", SInt, rt)), mkInt(1))
+		var err *Term
+		nilT := mkConst("nil", SRef)
+		if full == "database/sql.Row.Scan" {
+			// QueryRow(...).Scan: sql.ErrNoRows exactly when the result set is empty; otherwise the first row
+			row = mkInt(0)
+			err = e.fresh("err", SRef)
+			norows := term(e.globalVar(e.pkgVar("database/sql", "ErrNoRows")))
+			st.assume(mkEq(mkEq(err, norows), mkEq(mkApp("sql_nrows", SInt, rs), mkInt(0))))
+			st.assume(mkNot(mkEq(norows, nilT)))
+			st.assume(mkEq(mkEq(err, nilT), mkAnd(mkCmp(">", mkApp("sql_nrows", SInt, rs), mkInt(0)), mkEq(mkApp("sql_scanerr", SRef, rs, row), nilT))))
+		} else {
+			err = mkApp("sql_scanerr", SRef, rs, row)
+		}
+		for i, a := range e.lastAnyArgs {
+			switch d := a.(type) {
+			case VAddr:
+				nv := e.freshValue(d.Obj.Name(), d.Obj.Type(), st)
+				if t, ok := nv.(VTerm); ok {
+					st.assume(mkImplies(mkEq(err, nilT), mkEq(t.T, mkApp("sql_col_"+sortTag(t.T.Sort), t.T.Sort, rs, row, mkInt(int64(i))))))
+				}
+				st.vars[d.Obj] = nv
+			case VFieldAddr:
+				so := e.sortOf(d.Typ)
+				nv := e.fresh("scan."+d.Field, so)
+				st.assume(mkImplies(mkEq(err, nilT), mkEq(nv, mkApp("sql_col_"+sortTag(so), so, rs, row, mkInt(int64(i))))))
+				e.writeField(st, d.Base, d.Field, VTerm{T: nv, Typ: d.Typ}, e.src(cx))
+			default:
+				unsup("sql Scan destination %T at %s", a, e.src(cx))
+			}
+		}
+		return VTerm{T: err, Typ: fn.Type().(*types.Signature).Results().At(0).Type()}
+	case "time.Date":
+		// whole-second UTC instants with constant fields: the unix time
+		ok := len(args) == 8
+		var f [7]int64
+		for i := 0; ok && i < 7; i++ {
+			t, isT := args[i].(VTerm)
+			if !isT || t.T.Op != "int" || !t.T.Int.IsInt64() {
+				ok = false
+				break
+			}
+			f[i] = t.T.Int.Int64()
+		}
+		if ok {
+			if id, isID := ast.Unparen(cx.Args[7]).(*ast.SelectorExpr); !isID || id.Sel.Name != "UTC" {
+				ok = false
+			}
+		}
+		if ok {
+			u := time.Date(int(f[0]), time.Month(f[1]), int(f[2]), int(f[3]), int(f[4]), int(f[5]), int(f[6]), time.UTC).Unix()
+			return VTerm{T: mkInt(u), Typ: fn.Type().(*types.Signature).Results().At(0).Type()}
+		}
+		return VTerm{T: e.fresh("date", SInt), Typ: fn.Type().(*types.Signature).Results().At(0).Type()}
 	case "time.Sleep":
 		return VTuple{}
 	case "sync.WaitGroup.Add", "sync.WaitGroup.Done", "sync.WaitGroup.Wait":
@@ -197,6 +295,24 @@ func (e *Engine) callExternal(fn *types.Func, recv Value, args []Value, cx *ast.
 	case "io/fs.DirEntry.Name":
 		return VTerm{T: mkApp("direntry_name", SStr, term(recv)), Typ: types.Typ[types.String]}
 	case "fmt.Sprintf", "fmt.Sprint", "time.Time.String", "time.Time.Format":
+		if full == "fmt.Sprintf" && len(cx.Args) >= 1 {
+			// a constant format made of literal text and %s verbs over string arguments is a concatenation
+			if tv, ok := e.info().Types[cx.Args[0]]; ok && tv.Value != nil && tv.Value.Kind() == constant.String {
+				if t := e.sprintfConcat(constant.StringVal(tv.Value), e.lastAnyArgs); t != nil {
+					return VTerm{T: t, Typ: types.Typ[types.String]}
+				}
+			}
+		}
+		return VTerm{T: e.fresh("str", SStr), Typ: types.Typ[types.String]}
+	case "path/filepath.Clean":
+		// paths handed to the file helpers are taken to be clean already (Clean is the identity on them)
+		e.notes["assumed external: filepath.Clean is the identity on the paths used (they are clean already)"] = true
+		return VTerm{T: term(args[0]), Typ: types.Typ[types.String]}
+	case "path/filepath.Join":
+		if sl, ok := args[0].(VSlice); ok && sl.Len.Op == "int" && sl.Len.Int.Int64() == 2 {
+			e.notes["assumed external: filepath.Join(dir, file) as an uninterpreted pairing path_join(dir, file), injective in file for a fixed dir (file names without separators or dot segments)"] = true
+			return VTerm{T: mkApp("path_join", SStr, mkSelect(sl.Arr, mkInt(0)), mkSelect(sl.Arr, mkInt(1))), Typ: types.Typ[types.String]}
+		}
 		return VTerm{T: e.fresh("str", SStr), Typ: types.Typ[types.String]}
 	case "time.Now":
 		return VTerm{T: e.fresh("now", SInt), Typ: fn.Type().(*types.Signature).Results().At(0).Type()}
@@ -208,7 +324,7 @@ func (e *Engine) callExternal(fn *types.Func, recv Value, args []Value, cx *ast.
 	return e.defaultExternal(full, fn, recv, args, cx, st)
 }
 
-var externalPkgs = map[string]bool{"encoding/json": true, "encoding/csv": true, "net/http": true, "io": true, "os": true, "path/filepath": true, "path": true,
+var externalPkgs = map[string]bool{"database/sql": true, "encoding/json": true, "encoding/csv": true, "net/http": true, "io": true, "os": true, "path/filepath": true, "path": true,
 	"strings": true, "errors": true, "fmt": true, "time": true, "log/slog": true, "bufio": true, "io/fs": true, "strconv": true, "log": true, "reflect": true}
 
 func (e *Engine) extCounter(st *State, kind string, ref *Term) *Term {
@@ -317,6 +433,18 @@ func (e *Engine) defaultExternal(full string, fn *types.Func, recv Value, args [
 			st.mem["ftrunc:"+f.String()] = mkInt(fl.Int.Int64() & 0x200 >> 9)
 			st.mem["fappend:"+f.String()] = mkInt(fl.Int.Int64() & 0x400 >> 10)
 		}
+	case "os.Stat":
+		// ghost link: the file exists exactly when the ghost csv file system has it; FileInfo.Size() of an existing
+		// file is 0 only if it holds no rows (fs_size is the size reported for that path)
+		if err := errOf(); err != nil && len(args) == 1 {
+			fsv := e.ghostView(st, mkConst("csvfs", SRef))
+			st.assume(mkEq(mkEq(err, nilT), mkSelect(fsv.Has, term(args[0]))))
+			st.assume(mkEq(mkApp("fileinfo_size", SInt, term(results[0])), mkApp("fs_size", SInt, term(args[0]))))
+			st.assume(mkImplies(mkAnd(mkEq(err, nilT), mkEq(mkApp("fs_size", SInt, term(args[0])), mkInt(0))), mkEq(mkSelect(fsv.Len, term(args[0])), mkInt(0))))
+			st.assume(mkCmp(">=", mkApp("fs_size", SInt, term(args[0])), mkInt(0)))
+		}
+	case "io/fs.FileInfo.Size":
+		st.assume(mkEq(term(results[0]), mkApp("fileinfo_size", SInt, term(recv))))
 	case "os.ReadDir":
 		if sl, ok := results[0].(VSlice); ok && len(args) == 1 {
 			e.nfresh++
@@ -340,4 +468,58 @@ func (e *Engine) defaultExternal(full string, fn *types.Func, recv Value, args [
 	}
 	e.callRes[rk] = append(e.callRes[rk], VTuple(results))
 	return VTuple(results)
+}
+
+// Sprintf with a constant format of literal text and %s verbs over string-sorted arguments: the concatenation
+func (e *Engine) sprintfConcat(format string, anyArgs []Value) *Term {
+	var parts []*Term
+	lit := ""
+	ai := 0
+	flush := func() {
+		if lit != "" {
+			parts = append(parts, mkConst("str_"+sanitize(lit), SStr))
+			lit = ""
+		}
+	}
+	for i := 0; i < len(format); i++ {
+		if format[i] != '%' {
+			lit += string(format[i])
+			continue
+		}
+		if i+1 >= len(format) || format[i+1] != 's' || ai >= len(anyArgs) {
+			return nil
+		}
+		vt, ok := anyArgs[ai].(VTerm)
+		if !ok || vt.T.Sort != SStr {
+			return nil
+		}
+		flush()
+		parts = append(parts, vt.T)
+		ai++
+		i++
+	}
+	flush()
+	if ai != len(anyArgs) || len(parts) == 0 {
+		return nil
+	}
+	t := parts[0]
+	for _, p := range parts[1:] {
+		t = mkApp("str_concat", SStr, t, p)
+	}
+	return t
+}
+
+// package-level variable of an imported package by name
+func (e *Engine) pkgVar(path, name string) *types.Var {
+	for _, p := range e.w.Pkgs {
+		for _, imp := range p.Types.Imports() {
+			if imp.Path() == path {
+				if v, ok := imp.Scope().Lookup(name).(*types.Var); ok {
+					return v
+				}
+			}
+		}
+	}
+	unsup("package variable %s.%s not found", path, name)
+	return nil
 }
